@@ -142,6 +142,23 @@ func c16(c *Ctx) {
 				"establish works on the object list validate returned", "establish does not work on the list validate produced")
 		}
 	}
+	// the dry-run option validate hands to e.create / e.update reaches every write they make
+	for _, name := range []string{"create", "update"} {
+		f := c.method(pkg, "APIEstablisher", name)
+		if f == nil || len(f.Params) == 0 {
+			continue
+		}
+		optsP := f.Params[len(f.Params)-1]
+		ws := directWrites(f)
+		for _, w := range ws {
+			a := w.Common().Args
+			good := len(a) > 0 && flow.Root(a[len(a)-1]) == ssa.Value(optsP)
+			c.R.Check(good, site(w)+" carries the caller's options", c.pos(w.Pos()), "the write passes the options it was called with (DryRunAll in the validate phase)", "this write does not pass on the options "+name+"() was called with: in the validate phase it is a real write, and a later rejection leaves the package half-established")
+		}
+		if len(ws) == 0 {
+			c.R.Unknown(load.FuncName(f)+": writes", c.pos(f.Pos()), "no client write found")
+		}
+	}
 	val := c.method(pkg, "APIEstablisher", "validate")
 	estab := c.method(pkg, "APIEstablisher", "establish")
 	if val != nil {
